@@ -4,18 +4,66 @@
 
 // failed check (?): 
 #[test]
-fn kani_concrete_playback_pred_8476811433882634966() {
+fn kani_concrete_playback_pred_3342300684213605426() {
     let concrete_vals: Vec<Vec<u8>> = vec![
+        // 4ul
+        vec![4, 0, 0, 0, 0, 0, 0, 0],
+        // 9ul
+        vec![9, 0, 0, 0, 0, 0, 0, 0],
+        // 9ul
+        vec![9, 0, 0, 0, 0, 0, 0, 0],
+        // 10ul
+        vec![10, 0, 0, 0, 0, 0, 0, 0],
+        // 10ul
+        vec![10, 0, 0, 0, 0, 0, 0, 0],
+        // 1
+        vec![1],
+        // 2ul
+        vec![2, 0, 0, 0, 0, 0, 0, 0],
+        // 9ul
+        vec![9, 0, 0, 0, 0, 0, 0, 0],
+    ];
+    kani::concrete_playback_run(concrete_vals, crate::c04::q::n4_u10::pred);
+}
+
+// failed check (?): 
+#[test]
+fn kani_concrete_playback_pred_14386272370808736146() {
+    let concrete_vals: Vec<Vec<u8>> = vec![
+        // 0ul
+        vec![0, 0, 0, 0, 0, 0, 0, 0],
+        // 1ul
+        vec![1, 0, 0, 0, 0, 0, 0, 0],
+        // 1ul
+        vec![1, 0, 0, 0, 0, 0, 0, 0],
+        // 5ul
+        vec![5, 0, 0, 0, 0, 0, 0, 0],
+        // 0ul
+        vec![0, 0, 0, 0, 0, 0, 0, 0],
+        // 0
+        vec![0],
+        // 0ul
+        vec![0, 0, 0, 0, 0, 0, 0, 0],
+        // 3ul
+        vec![3, 0, 0, 0, 0, 0, 0, 0],
+    ];
+    kani::concrete_playback_run(concrete_vals, crate::c04::q::n4_u10::pred);
+}
+
+// failed check (?): 
+#[test]
+fn kani_concrete_playback_pred_12192202249141153948() {
+    let concrete_vals: Vec<Vec<u8>> = vec![
+        // 2ul
+        vec![2, 0, 0, 0, 0, 0, 0, 0],
         // 3ul
         vec![3, 0, 0, 0, 0, 0, 0, 0],
         // 3ul
         vec![3, 0, 0, 0, 0, 0, 0, 0],
-        // 3ul
-        vec![3, 0, 0, 0, 0, 0, 0, 0],
-        // 3ul
-        vec![3, 0, 0, 0, 0, 0, 0, 0],
-        // 131ul
-        vec![131, 0, 0, 0, 0, 0, 0, 0],
+        // 5ul
+        vec![5, 0, 0, 0, 0, 0, 0, 0],
+        // 0ul
+        vec![0, 0, 0, 0, 0, 0, 0, 0],
         // 0
         vec![0],
         // 1ul
@@ -26,68 +74,22 @@ fn kani_concrete_playback_pred_8476811433882634966() {
 
 // failed check (?): 
 #[test]
-fn kani_concrete_playback_pred_5048208870869061096() {
+fn kani_concrete_playback_pred_8864114242906502095() {
     let concrete_vals: Vec<Vec<u8>> = vec![
-        // 0ul
-        vec![0, 0, 0, 0, 0, 0, 0, 0],
-        // 1ul
-        vec![1, 0, 0, 0, 0, 0, 0, 0],
-        // 1ul
-        vec![1, 0, 0, 0, 0, 0, 0, 0],
-        // 1ul
-        vec![1, 0, 0, 0, 0, 0, 0, 0],
-        // 1ul
-        vec![1, 0, 0, 0, 0, 0, 0, 0],
-        // 1
-        vec![1],
-        // 0ul
-        vec![0, 0, 0, 0, 0, 0, 0, 0],
-        // 4ul
-        vec![4, 0, 0, 0, 0, 0, 0, 0],
-    ];
-    kani::concrete_playback_run(concrete_vals, crate::c04::q::n4_u10::pred);
-}
-
-// failed check (?): 
-#[test]
-fn kani_concrete_playback_pred_13161133699013340440() {
-    let concrete_vals: Vec<Vec<u8>> = vec![
-        // 4ul
-        vec![4, 0, 0, 0, 0, 0, 0, 0],
-        // 9ul
-        vec![9, 0, 0, 0, 0, 0, 0, 0],
-        // 9ul
-        vec![9, 0, 0, 0, 0, 0, 0, 0],
-        // 9ul
-        vec![9, 0, 0, 0, 0, 0, 0, 0],
-        // 2ul
-        vec![2, 0, 0, 0, 0, 0, 0, 0],
-        // 1
-        vec![1],
-        // 2ul
-        vec![2, 0, 0, 0, 0, 0, 0, 0],
-    ];
-    kani::concrete_playback_run(concrete_vals, crate::c04::q::n4_u10::pred);
-}
-
-// failed check (?): 
-#[test]
-fn kani_concrete_playback_pred_11658170434527066954() {
-    let concrete_vals: Vec<Vec<u8>> = vec![
-        // 8ul
-        vec![8, 0, 0, 0, 0, 0, 0, 0],
-        // 8ul
-        vec![8, 0, 0, 0, 0, 0, 0, 0],
+        // 6ul
+        vec![6, 0, 0, 0, 0, 0, 0, 0],
+        // 6ul
+        vec![6, 0, 0, 0, 0, 0, 0, 0],
         // 10ul
         vec![10, 0, 0, 0, 0, 0, 0, 0],
         // 10ul
         vec![10, 0, 0, 0, 0, 0, 0, 0],
-        // 11ul
-        vec![11, 0, 0, 0, 0, 0, 0, 0],
+        // 2111062325327625ul
+        vec![9, 247, 255, 255, 255, 127, 7, 0],
         // 0
         vec![0],
-        // 4ul
-        vec![4, 0, 0, 0, 0, 0, 0, 0],
+        // 3ul
+        vec![3, 0, 0, 0, 0, 0, 0, 0],
         // 9ul
         vec![9, 0, 0, 0, 0, 0, 0, 0],
     ];
